@@ -74,6 +74,17 @@ def _run_chunk(chunk):
     return out
 
 
+def product_raised(tb):
+    """True if the innermost frame of the traceback that lies in the tree under test or in /verif lies in the tree under test"""
+    for fs in reversed(traceback.extract_tb(tb)):
+        fn = os.path.realpath(fs.filename)
+        if fn.startswith(base.VERIF + os.sep):
+            return False
+        if fn.startswith(base.REPO + os.sep):
+            return True
+    return False
+
+
 def context_of(item):
     """the part of a finding's identity that says under which kind of deviation it shows: the layout operators applied, the
     style, the configured option - so that a known finding of a rule under one kind of deviation does not mask the same
